@@ -49,6 +49,8 @@ struct TaskState {
     end_ns: AtomicU64,
     /// 0 = dropped without finishing (cancelled / never polled), 1 = returned, 2 = unwound
     cause: AtomicU64,
+    /// the task's join handle, once the spawn call returned (read by the task's own drop guard)
+    handle: Mutex<Option<Arc<JoinHandle>>>,
 }
 
 impl TaskState {
@@ -59,6 +61,7 @@ impl TaskState {
             ended: AtomicBool::new(false),
             end_ns: AtomicU64::new(NEVER),
             cause: AtomicU64::new(0),
+            handle: Mutex::new(None),
         })
     }
 }
@@ -74,6 +77,21 @@ impl Drop for EndGuard {
     fn drop(&mut self) {
         if !self.st.ended.swap(true, Ordering::SeqCst) {
             self.st.end_ns.store(self.ctx.refresh_elapsed(), Ordering::SeqCst);
+            // The task's state (this guard) is still alive right now. If the join handle already
+            // resolves, a joiner on another thread can see the task "finished" while it is still
+            // being torn down (on this single-threaded runtime the joiner itself cannot run in
+            // between, so the order is observed from inside the drop).
+            if self.ctx.clock_ready.load(Ordering::Acquire) {
+                let h = self.st.handle.lock().unwrap().clone();
+                if let Some(h) = h {
+                    use futures::FutureExt;
+                    self.ctx.oracle("C42.not_resolved_while_state_alive");
+                    if h.join().now_or_never().is_some() {
+                        self.ctx.violation("C42", "not_resolved_while_state_alive", "join_handle",
+                            format!("task {}: its join handle already resolves while the task's future (and what it owns) has not been dropped yet", self.task));
+                    }
+                }
+            }
             // run teardown (after the world returned) must not extend the history
             if self.ctx.clock_ready.load(Ordering::Acquire) {
                 self.ctx.ev("task.end", self.task, self.st.cause.load(Ordering::SeqCst));
@@ -256,7 +274,9 @@ async fn run_exec(ctx: &Arc<RunCtx>) {
                     1 => spawn_cancellable(own_tokens[t].clone(), fut),
                     _ => spawn_cancellable(shared_token.clone(), fut),
                 };
-                handles[t] = Some(Arc::new(h));
+                let h = Arc::new(h);
+                *states[t].handle.lock().unwrap() = Some(h.clone());
+                handles[t] = Some(h);
                 // spawned with an already cancelled token: the cancellation takes effect now
                 let pre_cancelled = match plans[t].kind {
                     0 => false,
